@@ -22,7 +22,13 @@ Geo(kind, o, m) ==
     [] kind = "multiline" -> <<<<"ln", Walk(p, Lines.a, m)>>, <<"ln", Walk(Sh(p, <<3, 3>>), Lines.b, m)>>>>
     [] kind = "multipolygon" -> <<<<"ext", Walk(p, Rings.rect, m)>>, <<"ext", Walk(Sh(p, <<200, 0>>), Rings.tri, m)>>, <<"hole", Walk(Sh(p, <<205 * 1, 3>>), Rings.hole, 1)>>>>
     [] kind = "collection" -> <<<<"pt", <<p>>>>, <<"ln", Walk(p, Lines.c, m)>>, <<"ext", Walk(Sh(p, <<50, 50>>), Rings.tri, m)>>>>
-Kinds == {"point", "multipoint", "line", "ring", "polygon", "tall", "polyhole", "multiline", "multipolygon", "collection"}
+    \* collections whose members all have ONE type stay collections (they are not the Multi* of that type); a collection nested in a collection
+    [] kind = "collection_polys" -> <<<<"ext", Walk(p, Rings.rect, m)>>, <<"ext", Walk(Sh(p, <<200, 0>>), Rings.tri, m)>>>>
+    [] kind = "collection_lines" -> <<<<"ln", Walk(p, Lines.a, m)>>, <<"ln", Walk(Sh(p, <<3, 3>>), Lines.b, m)>>>>
+    [] kind = "collection_one" -> <<<<"ext", Walk(p, Rings.rect, m)>>>>
+    [] kind = "collection_nested" -> <<<<"pt", <<p>>>>, <<"ext", Walk(p, Rings.rect, m)>>, <<"ext", Walk(Sh(p, <<200, 0>>), Rings.tri, m)>>>>
+Kinds == {"point", "multipoint", "line", "ring", "polygon", "tall", "polyhole", "multiline", "multipolygon", "collection",
+          "collection_polys", "collection_lines", "collection_one", "collection_nested"}
 Offs == {"origin", "neg", "far", "x0", "y0"}
 Ress == {1, 7, 10, 13, 20, 25, 50, 70, 200}
 Cases(kind) == UNION { {[op |-> "segmented", kind |-> kind, off |-> o, m |-> m, r |-> r] : o \in Offs, m \in {1, 2}, r \in Ress},
@@ -31,7 +37,9 @@ Cases(kind) == UNION { {[op |-> "segmented", kind |-> kind, off |-> o, m |-> m, 
                        \* prior: what the process did with this CRS pair before (the transformer cache is keyed by pair and axis-order flag;
                        \* to_crs must map vertices as the projection library does whatever was requested earlier)
                        \* r = -1: resolution "auto" (the library picks the densification step); fix: also asked to check-and-fix the (valid) result - nothing to fix
-                       {[op |-> "to_crs_real", kind |-> kind, off |-> o, m |-> 1, r |-> r, pair |-> pr, prior |-> pz] : o \in {"origin", "neg"}, r \in {0, 20, -1},
+                       \* wrap: the dateline option is switched on for a geometry nowhere near the dateline (nothing to chop: the answer is that of the plain request,
+                       \* densification included)
+                       {[op |-> "to_crs_real", kind |-> kind, off |-> o, m |-> 1, r |-> r, pair |-> pr, prior |-> pz, wrap |-> wp] : o \in {"origin", "neg"}, r \in {0, 20, -1}, wp \in BOOLEAN,
                            pz \in {"none", "authority_axis_order_transformer_first"},
                            pr \in {"4326>3857", "3857>4326", "32633>4326", "4326>3035", "3035>32633", "6933>4326"}} }
 VARIABLE c
